@@ -77,6 +77,31 @@ BLOCKS = [("{ %s }", "block"), ("if true { %s }", "if"), ("if false { } else { %
           ("loop { %s break; }", "loop"), ("match 1 { 1 => { %s }, _ => { } }", "match-arm"), ("{ { %s } }", "nested-block")]
 
 
+def scope_matrix():
+    """Every binding form x every block form x every place x (an outer binding of the same name exists / does not):
+    after the block the name is the outer binding again, or unbound (compile error). -> HAND-style entries"""
+    out = []
+    for form in ("let", "fn"):
+        def bind(v):
+            return ("let x = %d;" % v) if form == "let" else ("fn x() { %d }" % v)
+        use = "x" if form == "let" else "x()"
+        for tmpl, kind in BLOCKS:
+            for place in ("top", "function", "closure", "nested-function"):
+                for outer in (True, False):
+                    inner = "%s push(__o, %s);" % (bind(2), use)
+                    core_ = (bind(1) + " " if outer else "") + (tmpl % inner) + " push(__o, %s);" % use
+                    if place == "top":
+                        text = core_
+                    elif place == "function":
+                        text = "fn host() { %s } host();" % core_
+                    elif place == "closure":
+                        text = "let host = fn() { %s 0 }; host();" % core_
+                    else:
+                        text = "fn a() { fn host() { %s } host(); } a();" % core_
+                    out.append((text, ["2", "1"] if outer else "compile_error"))
+    return out
+
+
 def escape_scenarios(rng, n):
     """Functions created inside a block that outlive it: the block's bindings stay theirs however many
     bindings are made after the block. -> [(text, expected observations, shape)]"""
@@ -149,7 +174,7 @@ def run(chk):
     chk.assumptions = ["`let a = <expression mentioning a>` is not generated (the statement does not say which a the initialiser sees)",
                        "a closure's writes to a captured variable go to its own copy and persist between its calls"]
     chk.floor = 1200
-    chk.rule += '; plus functions created in a block (7 block kinds, top level and inside a function) and called after 0-4 later bindings, closures with blocks between a write and a read of a captured variable, self-named parameters, double bindings'
+    chk.rule += '; plus functions created in a block (7 block kinds, top level and inside a function) and called after 0-4 later bindings, closures with blocks between a write and a read of a captured variable, self-named parameters, double bindings, the scope matrix (let / fn statement x 7 block kinds x 4 places x an outer binding exists or not)'
     n = 3000 if quick else 120000
     jobs = []
     unspec = {}
@@ -175,7 +200,8 @@ def run(chk):
             continue
         jobs.append(("wf", prog, gen.PRELUDE + gen.render(prog)[0], ev))
     cases = [Case("p%d" % i, text, {"globals": "__o", "final": 1, "steps": 400000}) for i, (_, _, text, _) in enumerate(jobs)]
-    for i, (text, exp) in enumerate(HAND):
+    HAND_ALL = HAND + scope_matrix()
+    for i, (text, exp) in enumerate(HAND_ALL):
         cases.append(Case("h%d" % i, gen.PRELUDE + text, {"globals": "__o", "steps": 100000}))
     esc = escape_scenarios(rng, 400 if quick else 20000)
     for i, (text, exp, shape) in enumerate(esc):
@@ -200,7 +226,7 @@ def run(chk):
             chk.observed(("wf", frozenset(kinds)))
             if i % 397 == 0:
                 chk.sample({"program": core.short(text, 400), "expected": ev["status"], "observations": [show(x) for x in ev["obs"][:8]]})
-    for i, (text, exp) in enumerate(HAND):
+    for i, (text, exp) in enumerate(HAND_ALL):
         r = res.get("h%d" % i)
         if r is None:
             chk.inconc("missing result")
